@@ -14,7 +14,7 @@
    delegation list and every storage slot; the same validator at every address,
    the same statistics, withdraw queue, staking record at every key and pending
    relationships. *)
-From VF.C10 Require Import Model ProofsMaps ProofsStk ProofsVal ProofsObj ProofsAcc Proofs ProofsTop Bridge Instance.
+From VF.C10 Require Import Model ProofsMaps ProofsStk ProofsVal ProofsObj ProofsAcc Proofs ProofsTop Alias ProofsAlias Bridge Instance.
 From VF.gen Require Import C10CopyTable.
 From Coq Require Import String.
 Local Open Scope N_scope.
@@ -74,10 +74,9 @@ Print Assumptions C10_content_only.
    at every copy point of every history the copy and the original (whose
    withdraw-queue cache the call fills) show the same content, have the same
    roots and both keep the invariant, so 1 and 2 hold for the copy too.
-   _partial: "independent of the original" is a heap property; the model's
-   states are values, aliasing is covered by C10_copy_table below and by the
-   write-one-side runs of the harness, not by a theorem.  For a copy taken
-   inside a transaction see C10_copy_inside_transaction_refuted. *)
+   _partial: equality is content + roots + invariant at the copy point; for a copy
+   taken inside a transaction see C10_copy_inside_transaction_refuted.
+   "Independent of the original" is 3b below. *)
 Theorem C10_copy_equal_partial :
   forall (W : World) (WOK : WorldOk W) d s l, DbOk d -> Inv d s ->
     let ds := crun (d, s) l in
@@ -126,6 +125,58 @@ Theorem C10_copy_inside_transaction_refuted :
   roots (iroot db_empty true (snd (copy repaired (run0 w3_ops)))) <> roots (iroot db_empty true (run0 w3_ops)).
 Proof. exact (conj w3_equal_at_copy w3_diverges). Qed.
 Print Assumptions C10_copy_inside_transaction_refuted.
+
+(* 3b. a copy is INDEPENDENT of the original.
+   (i) In the value model the only thing two StateDBs share is the database.  Whatever
+   history another StateDB over the same database goes through (the copy, the original
+   of a copy, a reopened state - any calls and commits), this one keeps its invariant
+   and shows the same content: the database only grows and reads do not depend on what
+   others add. *)
+Theorem C10_copy_independent_database :
+  forall (W : World) (WOK : WorldOk W) d s t l, DbOk d -> Inv d s -> Inv d t ->
+    let ds := crun (d, s) l in Inv (fst ds) t /\ state_eq (fst ds) t d t.
+Proof. intros W WOK. exact (@other_side W WOK). Qed.
+Print Assumptions C10_copy_independent_database.
+
+(* (ii) Aliasing (Alias.v): objects in a heap, references, calls that write in place
+   the mutable objects their StateDB reaches, a Copy that produces every field by the
+   class its table gives.  If what the shared fields of the copied objects point to is
+   frozen (never written in place: the table has no shared-MUTABLE entry), then the
+   copy and the original are separated (whatever both reach is frozen), stay separated
+   under ANY interleaving of calls on the two, and calls on one side alone leave every
+   object the other side reaches, and the set it reaches, exactly as they were. *)
+Theorem C10_copy_independent :
+  forall tbl h r h' r' D rho,
+    is_copy tbl h r h' r' D rho -> closed h -> frozen_closed h -> h r <> None -> shared_frozen tbl h D ->
+    HeapOk h' r r' /\
+    forall l h2, steps r r' h' l h2 ->
+      HeapOk h2 r r' /\
+      (Forall (fun s => s = SideB) l ->
+         (forall x, reach h' r x -> h2 x = h' x) /\ (forall x, reach h2 r x <-> reach h' r x)) /\
+      (Forall (fun s => s = SideA) l ->
+         (forall x, reach h' r' x -> h2 x = h' x) /\ (forall x, reach h2 r' x <-> reach h' r' x)).
+Proof. exact copy_independent. Qed.
+Print Assumptions C10_copy_independent.
+
+(* the hypothesis is needed: with a shared MUTABLE object a call on the copy changes
+   what the original reaches *)
+Theorem C10_copy_shared_mutable_refuted :
+  exists h2, step w_heap 2 h2 /\ reach w_heap 0 1 /\ h2 1 <> w_heap 1.
+Proof. exact shared_mutable_refuted. Qed.
+Print Assumptions C10_copy_shared_mutable_refuted.
+
+(* (iii) bridge: in the working tree no function of core/state or staking writes in
+   place through a field the copy shares (append, element assignment, copy into, sort,
+   big.Int update), nor into the elements of a rebuilt container - regenerated from
+   the source on every run; a field that becomes shared-mutable breaks this lemma
+   (tried: append(so.delegations, ..), so.data.Balance.Set(..)).
+   _partial: that the Go heap is an instance of Alias.v (is_copy for the real Copy,
+   frozen = "no in-place write site") is read off the regenerated tables, syntactically
+   and by field name; there is no Go semantics behind it.  The trie copies
+   (Database.CopyTrie) and types.Log copies are other packages' structures. *)
+Theorem C10_copy_no_shared_mutable_partial : inplace_sites = [].
+Proof. exact no_inplace_writes. Qed.
+Print Assumptions C10_copy_no_shared_mutable_partial.
 
 (* 4. bridge over the regenerated inventory (T5-ii): every field of every struct
    rebuilt by the copy functions is a plain value, rebuilt, or fresh; or it is
